@@ -7,7 +7,6 @@ package client
 import (
 	"bytes"
 	"fmt"
-	"runtime"
 	"testing"
 
 	"github.com/tokenized/spynode/internal/verifkit"
@@ -32,13 +31,15 @@ func fuzzMessageBody(data []byte) string {
 	if fuzzSkipTypes[t] {
 		return ""
 	}
-	var before, after runtime.MemStats
-	runtime.ReadMemStats(&before)
-	m := &Message{}
-	r := bytes.NewReader(data)
-	err := m.Deserialize(r)
-	runtime.ReadMemStats(&after)
-	if alloc := after.TotalAlloc - before.TotalAlloc; alloc > verifkit.AllocBound(len(data)) {
+	var m *Message
+	var r *bytes.Reader
+	var err error
+	alloc := verifkit.QuietAlloc(verifkit.AllocBound(len(data)), func() {
+		m = &Message{}
+		r = bytes.NewReader(data)
+		err = m.Deserialize(r)
+	})
+	if alloc > verifkit.AllocBound(len(data)) {
 		return fmt.Sprintf("C20/alloc: decoding %d bytes of type %d allocated %d bytes (budget %d)", len(data), t, alloc, verifkit.AllocBound(len(data)))
 	}
 	if err != nil {
